@@ -105,7 +105,27 @@ type Ctx struct {
 	// a Fail raised inside it is attributed to the call that just returned
 	// (C17's per-call output monitor on workloads written for other properties).
 	OnCall func()
+	// a case of another property borrowed by this one (see Borrow)
+	Alias    string
+	borrowed bool
+	outerIdx int
 }
+
+// Borrow runs one case (its index) of another property's workload inside the
+// current case: the workload sees that property's id (IsProp) and its own
+// case index, while violations keep being recorded under the current property
+// and the current case index, so that they replay from there.
+func (c *Ctx) Borrow(prop string, index int, f func(*Ctx)) {
+	c.Alias, c.borrowed, c.outerIdx = prop, true, c.Index
+	c.Index = index
+	defer func() {
+		c.Index, c.Alias, c.borrowed = c.outerIdx, "", false
+	}()
+	f(c)
+}
+
+// IsProp: the case belongs to, or is borrowed from, the given property.
+func (c *Ctx) IsProp(id string) bool { return c.Prop == id || c.Alias == id }
 
 type abortCase struct{}
 
@@ -214,7 +234,11 @@ func (c *Ctx) fail(at opRec, kind, disc, msg, stack string) {
 		return
 	}
 	sig := strings.Join([]string{c.Prop, at.obj, at.op, kind, disc}, "|")
-	c.Viol = &Violation{Property: c.Prop, Sig: sig, Message: msg, Seed: c.Seed, Tier: c.Tier, Index: c.Index,
+	idx := c.Index
+	if c.borrowed {
+		idx = c.outerIdx
+	}
+	c.Viol = &Violation{Property: c.Prop, Sig: sig, Message: msg, Seed: c.Seed, Tier: c.Tier, Index: idx,
 		OpNumber: c.nops, Trace: c.traceStrings(), Count: 1, Stack: stack}
 }
 
